@@ -68,12 +68,23 @@ macro_rules! impl_policy {
                 // https://github.com/al8n/stretto/pull/6/commits/c3a2a549ad4b033651470774224c583e2322d08a
                 let mut sample = Vec::with_capacity(DEFAULT_SAMPLES);
                 let mut victims = Vec::new();
+                #[cfg(transparencies_stretto_verif)]
+                crate::verif::obs(crate::verif::Obs::AddEvictBegin { key, cost, inc_hits });
 
                 // Delete victims until there's enough space or a minKey is found that has
                 // more hits than incoming item.
                 while room < 0 {
                     // fill up empty slots in sample
                     sample = inner.costs.fill_sample(sample);
+                    #[cfg(transparencies_stretto_verif)]
+                    if crate::verif::obs_on() {
+                        crate::verif::obs(crate::verif::Obs::AddSample {
+                            sample: sample
+                                .iter()
+                                .map(|p| (p.key, p.cost, inner.admit.estimate(p.key)))
+                                .collect(),
+                        });
+                    }
 
                     // find minimally used item in sample
                     let (mut min_key, mut min_hits, mut min_id, mut min_cost) =
@@ -496,4 +507,44 @@ impl TinyLFU {
     pub fn contains(&self, kh: u64) -> bool {
         self.doorkeeper.contains(kh)
     }
+}
+
+#[cfg(transparencies_stretto_verif)]
+impl TinyLFU {
+    pub(crate) fn verif_snapshot(&self) -> crate::verif::TinySnap {
+        crate::verif::TinySnap {
+            rows: self.ctr.verif_rows(),
+            seeds: self.ctr.verif_seeds(),
+            mask: self.ctr.verif_mask(),
+            bloom_words: self.doorkeeper.verif_words(),
+            bloom_params: self.doorkeeper.verif_params(),
+            samples: self.samples,
+            w: self.w,
+        }
+    }
+}
+
+#[cfg(transparencies_stretto_verif)]
+impl<S: BuildHasher + Clone + 'static> PolicyInner<S> {
+    pub(crate) fn verif_admit(&mut self) -> &mut TinyLFU {
+        &mut self.admit
+    }
+
+    pub(crate) fn verif_snapshot(&self) -> crate::verif::PolicySnap {
+        let mut charges: Vec<(u64, i64)> =
+            self.costs.key_costs.iter().map(|(k, v)| (*k, *v)).collect();
+        charges.sort();
+        crate::verif::PolicySnap {
+            charges,
+            used: self.costs.used,
+            max_cost: self.costs.get_max_cost(),
+            order: self.costs.key_costs.keys().copied().collect(),
+            tiny: self.admit.verif_snapshot(),
+        }
+    }
+}
+
+#[cfg(all(transparencies_stretto_verif, feature = "sync"))]
+pub(crate) mod sync_verif {
+    pub(crate) use super::sync::PolicyProcessor as Worker;
 }
